@@ -1,0 +1,184 @@
+//go:build verif
+
+package workflow
+
+// Verification shims (build tag "verif", add-only): a canonical, read-only view
+// of a role tree including the fields that the exported Role interface does not
+// expose (own defaults/vars/uservars layers, iterator locals, the evaluated
+// `enabled` string, constraints, bind/connect channels, task/call traits) and the
+// RAW child slices (iterator nodes are visible as nodes of kind "iterator").
+
+import (
+	"encoding/json"
+	"fmt"
+)
+
+type VerifRoleInfo struct {
+	Kind       string            `json:"kind"` // aggregator | task | call | include | iterator
+	Name       string            `json:"name"`
+	Path       string            `json:"path"`
+	ParentPath string            `json:"parentPath"`
+	HasParent  bool              `json:"hasParent"`
+	Enabled    string            `json:"enabled"`
+	IsEnabled  bool              `json:"isEnabled"`
+	Defaults   map[string]string `json:"defaults"`
+	Vars       map[string]string `json:"vars"`
+	UserVars   map[string]string `json:"userVars"`
+	Locals     map[string]string `json:"locals"`
+	// what the role's exported ConsolidatedVarMaps() / ConsolidatedVarStack() return
+	FlatDefaults map[string]string `json:"flatDefaults"`
+	FlatVars     map[string]string `json:"flatVars"`
+	FlatUserVars map[string]string `json:"flatUserVars"`
+	Stack        map[string]string `json:"stack"`
+	StackErr     string            `json:"stackErr,omitempty"`
+	Constraints  []string          `json:"constraints"`
+	Bind         []string          `json:"bind"`
+	Connect      []string          `json:"connect"`
+
+	// task and call roles
+	Trigger   string `json:"trigger,omitempty"`
+	Await     string `json:"await,omitempty"`
+	Timeout   string `json:"timeout,omitempty"`
+	Critical  bool   `json:"critical"`
+	TaskClass string `json:"taskClass,omitempty"`
+	FuncCall  string `json:"funcCall,omitempty"`
+	ReturnVar string `json:"returnVar,omitempty"`
+	Include   string `json:"include,omitempty"`
+
+	// iterator nodes
+	IterVar string `json:"iterVar,omitempty"`
+
+	Children []*VerifRoleInfo `json:"children"`
+}
+
+func verifCopyMap(m map[string]string) map[string]string {
+	out := make(map[string]string, len(m))
+	for k, v := range m {
+		out[k] = v
+	}
+	return out
+}
+
+func verifBase(kind string, r *roleBase) *VerifRoleInfo {
+	info := &VerifRoleInfo{
+		Kind:      kind,
+		Name:      r.Name,
+		Path:      r.GetPath(),
+		Enabled:   r.Enabled,
+		IsEnabled: r.IsEnabled(),
+		Locals:    verifCopyMap(r.Locals),
+		HasParent: r.parent != nil,
+	}
+	if r.parent != nil {
+		info.ParentPath = r.parent.GetPath()
+	}
+	if r.Defaults != nil {
+		info.Defaults = r.Defaults.RawCopy()
+	}
+	if r.Vars != nil {
+		info.Vars = r.Vars.RawCopy()
+	}
+	if r.UserVars != nil {
+		info.UserVars = r.UserVars.RawCopy()
+	}
+	if r.Defaults != nil && r.Vars != nil && r.UserVars != nil {
+		var err error
+		info.FlatDefaults, info.FlatVars, info.FlatUserVars, err = r.ConsolidatedVarMaps()
+		if err != nil {
+			info.StackErr = err.Error()
+		}
+		info.Stack, err = r.ConsolidatedVarStack()
+		if err != nil {
+			info.StackErr += "|" + err.Error()
+		}
+	}
+	for _, c := range r.Constraints {
+		info.Constraints = append(info.Constraints, fmt.Sprintf("%s %s %s", c.Attribute, c.Operator.String(), c.Value))
+	}
+	for _, b := range r.Bind {
+		info.Bind = append(info.Bind, fmt.Sprintf("%s|%s|%s", b.Name, b.Type, b.Global))
+	}
+	for _, c := range r.Connect {
+		info.Connect = append(info.Connect, fmt.Sprintf("%s|%s|%s", c.Name, c.Type, c.Target))
+	}
+	return info
+}
+
+// VerifInfo returns the canonical view of role and of everything below it.
+func VerifInfo(role Role) *VerifRoleInfo {
+	switch r := role.(type) {
+	case nil:
+		return nil
+	case *aggregatorRole:
+		if r == nil {
+			return &VerifRoleInfo{Kind: "nil-aggregator"}
+		}
+		info := verifBase("aggregator", &r.roleBase)
+		info.Critical = r.IsCritical()
+		for _, ch := range r.Roles {
+			info.Children = append(info.Children, VerifInfo(ch))
+		}
+		return info
+	case *includeRole:
+		if r == nil {
+			return &VerifRoleInfo{Kind: "nil-include"}
+		}
+		info := verifBase("include", &r.roleBase)
+		info.Include = r.Include
+		info.Critical = r.IsCritical()
+		for _, ch := range r.Roles {
+			info.Children = append(info.Children, VerifInfo(ch))
+		}
+		return info
+	case *taskRole:
+		if r == nil {
+			return &VerifRoleInfo{Kind: "nil-task"}
+		}
+		info := verifBase("task", &r.roleBase)
+		info.Trigger, info.Await, info.Timeout, info.Critical = r.Trigger, r.Await, r.Timeout, r.Critical
+		info.TaskClass = r.LoadTaskClass
+		return info
+	case *callRole:
+		if r == nil {
+			return &VerifRoleInfo{Kind: "nil-call"}
+		}
+		info := verifBase("call", &r.roleBase)
+		info.Trigger, info.Await, info.Timeout, info.Critical = r.Trigger, r.Await, r.Timeout, r.Critical
+		info.FuncCall, info.ReturnVar = r.FuncCall, r.ReturnVar
+		return info
+	case *iteratorRole:
+		if r == nil {
+			return &VerifRoleInfo{Kind: "nil-iterator"}
+		}
+		info := &VerifRoleInfo{Kind: "iterator"}
+		if r.For != nil {
+			info.IterVar = r.For.GetVar()
+		}
+		if r.template != nil {
+			info.Name = r.template.GetName()
+		}
+		for _, ch := range r.Roles {
+			info.Children = append(info.Children, VerifInfo(ch))
+		}
+		return info
+	case *aggregatorTemplate:
+		return VerifInfo(&r.aggregatorRole)
+	case *taskTemplate:
+		return VerifInfo(&r.taskRole)
+	case *callTemplate:
+		return VerifInfo(&r.callRole)
+	case *includeTemplate:
+		return VerifInfo(&r.includeRole)
+	}
+	return &VerifRoleInfo{Kind: fmt.Sprintf("unknown(%T)", role)}
+}
+
+// VerifDump is VerifInfo serialised as indented JSON (map keys sorted by
+// encoding/json, slices in tree order).
+func VerifDump(role Role) string {
+	b, err := json.MarshalIndent(VerifInfo(role), "", " ")
+	if err != nil {
+		return "verif dump error: " + err.Error()
+	}
+	return string(b)
+}
